@@ -147,8 +147,8 @@ def FwdImpl.renderItem (f : FwdImpl) : FwdItem → GToks
     let lExpr := changeOwned ["self"] f.this implL f.thisIsRef
     let rExpr := changeOwned ["__rhs"] f.rhs implR f.rhsIsRef
     implItem autoDerived (U f.generics.implToks) (bt +++ angle implRhs) implThis (U f.generics.whereToks)
-      (["type", mem "Output", "="] +++ U (f.output.getD .never).toks +++ [";", "fn", mem bf] +++
-        paren (["self", ",", "__rhs", ":"] +++ implRhs) +++ ["->", "Self", "::", mem "Output"] +++
+      ([typeM "Output", "="] +++ U (f.output.getD .never).toks +++ [";", fnM bf] +++
+        paren (["self", ",", "__rhs", ":"] +++ implRhs) +++ ["->", "Self", pathM "Output"] +++
         brace (ufcs l (bt +++ angle r) bf +++ paren (lExpr +++ "," ::: rExpr)))
   | .assign rhs callL =>
     let bt := opTraitPath f.op .binary
@@ -158,7 +158,7 @@ def FwdImpl.renderItem (f : FwdImpl) : FwdItem → GToks
     let l := U (refTypeWith f.this callL).toks
     let lExpr := changeOwned ["self"] f.this true callL
     implItem autoDerived (U f.generics.implToks) (at_ +++ angle (U rhs.toks)) (U f.this.toks) (U f.generics.whereToks)
-      (["fn", mem af] +++ paren (["&", "mut", "self", ",", "__rhs", ":"] +++ U rhs.toks) +++
+      ([fnM af] +++ paren (["&", "mut", "self", ",", "__rhs", ":"] +++ U rhs.toks) +++
         brace (["*", "self", "="] +++ ufcs l (bt +++ angle (U rhs.toks)) bf +++ paren (lExpr +++ [",", "__rhs"])))
   | .binFromAssign =>
     let bt := opTraitPath f.op .binary
@@ -168,8 +168,8 @@ def FwdImpl.renderItem (f : FwdImpl) : FwdItem → GToks
     let this := U f.thisOrig.toks
     let rhs := U f.rhsOrig.toks
     implItem autoDerived (U f.generics.implToks) (bt +++ angle rhs) this (U f.generics.whereToks)
-      (["type", mem "Output", "="] +++ this +++ [";", "fn", mem bf] +++ paren (["mut", "self", ",", "__rhs", ":"] +++ rhs) +++
-        ["->", "Self", "::", mem "Output"] +++
+      ([typeM "Output", "="] +++ this +++ [";", fnM bf] +++ paren (["mut", "self", ",", "__rhs", ":"] +++ rhs) +++
+        ["->", "Self", pathM "Output"] +++
         brace (ufcs this (at_ +++ angle rhs) af +++ paren ["&", "mut", "self", ",", "__rhs"] +++ [";", "self"]))
 
 def FwdImpl.render (f : FwdImpl) : List GToks := f.items.map f.renderItem
